@@ -107,8 +107,21 @@ def dispatch(ctx):
         seen_tests = sum(1 for b in f.blocks.values() if b.term and b.term.get('cond') is not None for pol in (True,)
                          for (op, lc, rc, l, r) in norm_cond(b.term['cond'], pol)
                          if _mask_test(l, 'inotify_event', IN_IGNORED) or _mask_test(l, 'iv_inotify_watch', IN_ONESHOT))
-        if seen_tests < 2:
-            raise AnalysisBroken('IN_IGNORED / IN_ONESHOT tests not found in the dispatcher')
+        seen_ign = any(_mask_test(l, 'inotify_event', IN_IGNORED) for b in f.blocks.values() if b.term and b.term.get('cond') is not None
+                       for (op, lc, rc, l, r) in norm_cond(b.term['cond'], True))
+        seen_one = any(_mask_test(l, 'iv_inotify_watch', IN_ONESHOT) for b in f.blocks.values() if b.term and b.term.get('cond') is not None
+                       for (op, lc, rc, l, r) in norm_cond(b.term['cond'], True))
+        if not (seen_ign and seen_one):
+            # is the flag read anywhere in the function (then we cannot follow it: analysis broken), or not at all (violation)?
+            reads_watch_mask = any(x.get('k') == 'member' and last_member(x) == ('iv_inotify_watch', 'mask') for e in f.events() for x in walk(e))
+            reads_event_mask = any(x.get('k') == 'member' and last_member(x) == ('inotify_event', 'mask') for e in f.events() for x in walk(e)) or \
+                any(x.get('k') == 'member' and last_member(x) == ('inotify_event', 'mask') for b in f.blocks.values() if b.term for x in walk(b.term))
+            if (not seen_one and not reads_watch_mask) or (not seen_ign and not reads_event_mask):
+                ctx.ob('R-C20b', 'dispatch:delete-before-handler', False, loc=cs['loc'],
+                       detail='the dispatcher never examines %s: such watches are not dropped from the instance before their handler runs'
+                              % ('the watch\'s IN_ONESHOT flag' if not seen_one else 'the record\'s IN_IGNORED flag'), fn=f.q)
+                continue
+            raise AnalysisBroken('IN_IGNORED / IN_ONESHOT tests not found as branch conditions in the dispatcher')
         ctx.ob('R-C20b', 'dispatch:delete-before-handler', pending is False, loc=cs['loc'],
                detail='on every path on which the record says IN_IGNORED or the watch is one-shot, the watch was deleted from the tree before its handler is called', fn=f.q)
 
